@@ -85,10 +85,10 @@ def dirty_raises(ctx, entry, protected=PROTECTED, max_paths=6000):
         ws = _pwrites(p.events, protected)
         if not ws:
             key = (fn, cls, site)
-            reports.setdefault(key, {'entry': entry, 'fn': fn, 'exc': cls, 'site': site, 'guard': guard_of(p), 'writes': [], 'owner': exc[4] if exc and len(exc) > 4 else None})
+            reports.setdefault(key, {'entry': entry, 'fn': fn, 'exc': cls, 'site': site, 'guard': guard_of(p), 'writes': [], 'owner': exc[4] if exc and len(exc) > 4 else None, 'implicit': bool(exc and len(exc) > 5 and exc[5] == 'table-miss')})
             continue
         key = (fn, cls, site)
-        rep = reports.setdefault(key, {'entry': entry, 'fn': fn, 'exc': cls, 'site': site, 'guard': guard_of(p), 'writes': [], 'owner': exc[4] if exc and len(exc) > 4 else None})
+        rep = reports.setdefault(key, {'entry': entry, 'fn': fn, 'exc': cls, 'site': site, 'guard': guard_of(p), 'writes': [], 'owner': exc[4] if exc and len(exc) > 4 else None, 'implicit': bool(exc and len(exc) > 5 and exc[5] == 'table-miss')})
         for w in ws:
             if w not in rep['writes']:
                 rep['writes'].append(w)
